@@ -3,30 +3,45 @@
     Model of the writer: [Btor2Ser.serialize] (token lines, no names); model of the reader:
     [Btor2Parse.parse_raw] / [parse_lines]; reference meaning of a text: [Btor2Sem.sem_run].
 
-    Full statements, NOT proved here (the whole-system round trip is covered by the
-    correspondence/oracle run on generated, parsed and all shipped systems):
+    PROVED (Proofs/Btor2Rt*.v, Proofs/Btor2RoundTrip.v), for ALL systems:
 
-      roundtrip_sem :
-        forall sy lines, sys_ok_weak sy = true -> sys_closed sy -> (all widths and ids < 2^32) ->
-        serialize sy = POk lines ->
-        exists sy', parse_lines true lines = POk sy' /\
-          positionally equal counts and types of inputs / states / outputs / bads / constraints of
-          [demote sy] and [sy'] /\ eval-equal init / next / output / bad / constraint functions
-          under the positional symbol correspondence.
+      roundtrip_sem ([C09_roundtrip_sem], [C09_roundtrip_sem_repo]) : for every well-typed system
+        [sy] with pairwise distinct declared symbols whose widths fit 32 bits, if the writer
+        produces [lines] (fewer than 2^32 of them), the reader accepts [lines] in both build
+        profiles, and the system [sy'] it returns corresponds to [demote sy] POSITION BY POSITION
+        ([rt_agrees], Spec/Btor2RoundTripSpec.v): same number of inputs / states / outputs / bads /
+        constraints, symbols of the same types in the same order (the positional renaming [tau]),
+        and in EVERY well-formed environment every init / next / output / bad / constraint
+        expression has the type and the value of the expression of [sy] at the same position,
+        evaluated in the environment that gives each symbol of [sy] the value of its partner.
+        Covered: negated references (the writer prints none), array states initialised by a
+        constant array (printed as the element, broadcast by the reader), constant states,
+        states that are also outputs (renamed by the reader: [tau] absorbs the renaming), states
+        without init and next (demoted to inputs), shared sort declarations, the id cache, the
+        builders' normal forms (slice of the whole operand, extension by 0).
+        [C09_roundtrip_complete] adds, for closed systems, the converse direction (every environment of
+        [sy] has a partner environment of [sy']) and that the symbols of [sy'] are pairwise distinct.
+        Hypotheses that the lead's draft did not have: [NoDup (declared sy)] (with a symbol declared
+        twice the writer's id cache and the reader's maps diverge: [c09_dup_symbol] below);
+        [sys_closed] is NOT needed (the writer refuses undeclared symbols).
+
+    NOT proved (false today, covered by the name oracle of the correspondence run):
+
       roundtrip_full : roundtrip_sem plus: explicit, distinct names of inputs, states and outputs of
         a parsed system survive a further write/read cycle.   (names are string heuristics of
         serialize.rs: is_autogen_name, decl_name, label names, alias lines; FALSE today, see
         known_findings.txt, keys starting with names: ; Model/Btor2SerNames.v models the heuristics
         exactly, with one flag per repair prepared under patches/0008, 0010, 0011)
 
-    Proved: the reader inverts the writer's SPELLING node by node - every operator node
+    Also proved, per node: the reader inverts the writer's SPELLING node by node - every operator node
     ([C09_node_roundtrip]: the operator name the writer prints selects, in the reader's tables,
     the lowering that rebuilds the node, e.g. a signed comparison printed as an unsigned one
     would break it) and every literal ([C09_literal_roundtrip]: zero / one / ones / const <bits>,
     all widths, both of baa's code paths); and [C09_reread_means_text_partial]: whatever the
     reader returns for the written lines has the meaning btor2 assigns to those lines. *)
 From Coq Require Import List String NArith Bool.
-From Patronus Require Import SysClosed Btor2Parse Btor2Ser Btor2Sem Btor2Agree Btor2Witness Btor2NoCrash Btor2Sound Btor2ParseProofs Btor2SerProofs.
+From Patronus Require Import SysClosed Btor2Parse Btor2Ser Btor2Sem Btor2Agree Btor2Witness Btor2NoCrash Btor2Sound Btor2ParseProofs Btor2SerProofs
+     Btor2RoundTripSpec Btor2RoundTrip Btor2RoundTripEnv.
 Import ListNotations.
 Open Scope N_scope.
 
@@ -91,3 +106,83 @@ Definition c09_sys : sys :=
 Example C09_roundtrip_example :
   sys_ok c09_sys = true /\ roundtrip true c09_sys = POk c09_sys /\ roundtrip false c09_sys = POk c09_sys.
 Proof. vm_compute. repeat split. Qed.
+
+(** ** the whole-system round trip *)
+(** The reader without the checks of the repair series ([parse_lines], the code before /repo bbc1196),
+    both build profiles.  Well-formedness: [sys_ok_weak] (bad states and constraints of any width). *)
+Theorem C09_roundtrip_sem :
+  forall sy lines,
+    sys_ok_weak sy = true -> NoDup (declared sy) -> sys_fits sy = true ->
+    serialize sy = POk lines -> N.of_nat (List.length lines) <= U32MAX ->
+    exists sy' tau pull, (forall dbg, parse_lines dbg lines = POk sy') /\ rt_agrees sy sy' tau pull.
+Proof. exact roundtrip_sem. Qed.
+Print Assumptions C09_roundtrip_sem.
+
+(** The reader of /repo ([Fix], with the checks of patches 0001..0007) and the prepared [Fix2]: the
+    writer's lines pass every check, provided bad states and constraints are Boolean ([sys_ok]). *)
+Theorem C09_roundtrip_sem_repo :
+  forall v sy lines,
+    is_fix v = true ->
+    sys_ok sy = true -> NoDup (declared sy) -> sys_fits sy = true ->
+    serialize sy = POk lines -> N.of_nat (List.length lines) <= U32MAX ->
+    exists sy' tau pull, (forall dbg, parse_lines_v v dbg lines = POk sy') /\ rt_agrees sy sy' tau pull.
+Proof. exact roundtrip_sem_fix. Qed.
+Print Assumptions C09_roundtrip_sem_repo.
+
+(** The complete, symmetric statement for closed systems (any reader variant [v]: [Cur] needs [sys_ok_weak]
+    only, [Fix] = /repo and [Fix2] also need Boolean bad states and constraints): the system read back has
+    pairwise distinct symbols; every environment [rho'] of it induces an environment of [sy] under which
+    the two systems mean the same ([rt_agrees]); and conversely for EVERY environment [rho] of [sy] there
+    is an environment [rho'] of the system read back such that all positionally corresponding symbols,
+    init / next / output / bad / constraint expressions have the same type and value ([rt_same]). *)
+Theorem C09_roundtrip_complete :
+  forall v sy lines,
+    sys_ok_weak sy = true -> (is_fix v = true -> props_1bit sy = true) -> sys_closed sy ->
+    NoDup (declared sy) -> sys_fits sy = true ->
+    serialize sy = POk lines -> N.of_nat (List.length lines) <= U32MAX ->
+    exists sy',
+      (forall dbg, parse_lines_v v dbg lines = POk sy') /\
+      NoDup (declared sy') /\
+      (exists tau pull, rt_agrees sy sy' tau pull) /\
+      (forall rho, env_wf rho -> exists rho', env_wf rho' /\ rt_same sy sy' rho rho').
+Proof. exact roundtrip_complete. Qed.
+Print Assumptions C09_roundtrip_complete.
+
+(** A fact about the reader alone, used above: the inputs and state symbols of EVERY accepted system
+    (any text, any reader variant, any build profile) are pairwise distinct - [unique_name] is fresh,
+    and [improve_state_names] renames a state only to a name recorded for that state alone. *)
+Theorem C09_accepted_symbols_distinct :
+  forall v dbg ls sy, parse_lines_v v dbg ls = POk sy -> NoDup (declared sy).
+Proof. exact accepted_distinct. Qed.
+Print Assumptions C09_accepted_symbols_distinct.
+
+(** Non-vacuity: the example system satisfies every hypothesis. *)
+Example C09_roundtrip_hyps :
+  sys_ok c09_sys = true /\ sys_ok_weak c09_sys = true /\ NoDup (declared c09_sys) /\ sys_fits c09_sys = true /\
+  exists lines, serialize c09_sys = POk lines /\ N.of_nat (List.length lines) <= U32MAX.
+Proof.
+  split; [vm_compute; reflexivity|]. split; [vm_compute; reflexivity|]. split.
+  - cbn [declared c09_sys s_inputs s_states map st_sym app].
+    repeat (constructor; [cbn [In]; intros H; repeat (destruct H as [H|H]; [discriminate H|]); exact H|]). constructor.
+  - split; [vm_compute; reflexivity|]. eexists. split; [vm_compute; reflexivity|]. vm_compute. discriminate.
+Qed.
+
+(** Why the declared symbols must be distinct: with a symbol that is both an input and a state, the
+    expression cache of the writer hands out the id of an expression built over the INPUT for the
+    same expression over the STATE. *)
+Definition c09_dup_symbol : sys :=
+  let a := BVSymbol "a" 1 in
+  {| s_inputs := [a];
+     s_states := [ {| st_sym := a; st_init := Some (BVNot a 1); st_next := Some (BVNot a 1) |} ];
+     s_outputs := []; s_bads := []; s_constraints := [] |}.
+
+Example C09_dup_symbol_diverges :
+  sys_ok c09_dup_symbol = true /\
+  match roundtrip true c09_dup_symbol with
+  | POk sy' => match s_states sy' with
+               | [s'] => st_next s' = Some (BVNot (BVSymbol "_input_0" 1) 1)   (* not the state: the input *)
+               | _ => False
+               end
+  | _ => False
+  end.
+Proof. vm_compute. split; reflexivity. Qed.
